@@ -78,9 +78,23 @@ def check(ctx: Ctx) -> None:
     for pyf, jsf in PAIRS:
         fi = proj.func(pyf)
         jf = jsmini.find_function(toks, jsf)
-        if jf is None:
-            raise AnalysisError(f'anchor JavaScript function {jsf} not found')
         pp = norm.py_paths(proj, fi)
+        if jf is None:
+            # the mirror may have been renamed: a top-level function of the same arity that normalises to the same decision tree is the mirror
+            want = set(map(repr, [p.summary() for p in pp]))
+            for cand in jsmini.top_function_names(toks):
+                cf = jsmini.find_function(toks, cand)
+                if cf is None or len(cf[2]) != len([a for a in fi.params if a not in ('self', 'cls')]):
+                    continue
+                try:
+                    cp = norm.JsNorm(toks, cf).run()
+                except AnalysisError:
+                    continue
+                if set(map(repr, [p.summary() for p in cp])) == want:
+                    jf, jsf = cf, cand
+                    break
+        if jf is None:
+            raise AnalysisError(f'anchor JavaScript function {jsf} not found (and no other top-level function computes what {pyf} computes)')
         jp = norm.JsNorm(toks, jf).run()
         programs += 2
         pa = [p.summary() for p in pp]
